@@ -18,7 +18,7 @@ func init() {
 		Explain:    "Decides structural necessary conditions of Size(m) == len(Marshal(m)): (1) for every sibling pair sizeX/appendX of the fast-path codec (all generated scalar, pointer, slice, packed and reflection-value coders, message/group coders in open and opaque form) and of the reflection encoder's per-kind singular codec the size function accounts for exactly the multiset of wire operations the append function emits — tag, varint of the same expression, fixed width, length prefix of the same content, raw bytes, nested message — in the same loop context, and both skip the field under the same `nothing to encode` guards (zero tests of implicit-presence fields including the -0.0 test, empty packed lists); (2) every recorded tag size is the varint size of the wire tag recorded next to it; (3) the per-field loops of sizePointerSlow and marshalAppendPointer, read as decision procedures over the field-state atoms (coder present, presence-tracked, present, lazy, pointer, slot undecoded, element nil, lazy pass-through allowed), take the same decision — skip, copy raw lazy bytes, or encode (decoding a lazy field first or not) — for every assignment of the atoms, under two stated invariants; both passes handle extensions and unknown bytes; (4) finishSpeculativeLength leaves Varint(len(payload)) followed by the payload for every payload length (R-SPEC-LEN, linear forms), which is what the size side counts for a speculative length prefix; (5) map entries: for both value representations the entry's length prefix is the varint of exactly what appendMapItem writes after it, and sizeMap accounts for the field tag plus the length-prefixed same multiset (R-MAP-ENTRY-PARITY); the extension loops take the lazy pass-through under the same guards on both sides (R-EXT-LAZY-PARITY); (6) the reflection encoder's field, list, map and message functions describe the same wire shape on the size and on the write side for every assignment of their condition atoms (R-REFL-ENC-PARITY).",
 		NotCovered: "MessageSet framing of known extensions beyond the lazy/expand parity, the MessageSet branch of the reflection encoder, the size cache (C16); equality on concrete messages.",
 		Quick:      all("./internal/impl", "./proto", "./internal/encoding/messageset"),
-		Thorough:   all("./..."),
+		Thorough:   allAndLegacy("./internal/impl", "./proto", "./internal/encoding/messageset"),
 		Run: func(c *Ctx) {
 			c.ruleSizeAppend("R-SIZE-APPEND", []string{"internal/impl", "proto", "internal/encoding/messageset"}, sizeAppendNotAnalysed, 130)
 			c.ruleSpecLen("R-SPEC-LEN")
